@@ -794,31 +794,10 @@ fn pid_of_job(obs: &Observed, id: u32) -> Option<i32> {
 
 /// Checks one observed run against the expectation. Returns (class, key, detail).
 pub fn check_run(c: &Case, exp: &Expect, obs: &Observed) -> Option<(String, String, String)> {
+    if let Some(v) = crate::shellrun::check_liveness(obs) {
+        return Some(v);
+    }
     let o = &obs.outcome;
-    if o.budget_exhausted {
-        return Some((
-            "budget".into(),
-            "budget".into(),
-            format!("step budget exhausted after {} steps", o.steps),
-        ));
-    }
-    let alive: Vec<String> = o
-        .procs
-        .iter()
-        .filter(|p| p.state == "running" || p.state.starts_with("stopped"))
-        .map(|p| format!("pid {} ({})", p.pid, p.state))
-        .collect();
-    if o.stalled || !o.main_done || !alive.is_empty() {
-        return Some((
-            "deadlock".into(),
-            "deadlock".into(),
-            format!(
-                "no runnable process and no timer, but unfinished: {} (main_done={})",
-                alive.join(", "),
-                o.main_done
-            ),
-        ));
-    }
     let want_status = format!("exited:{}", exp.status);
     if obs.stdout != exp.stdout || obs.status != want_status || !obs.stderr.is_empty() {
         let key = if obs.stderr.contains("no job to wait for") {
@@ -935,8 +914,8 @@ pub struct C13;
 fn failure(
     c: &Case,
     cfg: &SimConfig,
-    obs: Option<&Observed>,
-    decisions: &[Decision],
+    obs: &Observed,
+    _decisions: &[Decision],
     v: (String, String, String),
 ) -> Failure {
     Failure {
@@ -945,22 +924,15 @@ fn failure(
         detail: format!("{}\n--- script ---\n{}", v.2, render_case(c)),
         case: serde_json::to_value(c).unwrap(),
         cfg: cfg.clone(),
-        decisions: obs.map(|o| o.decisions.clone()).unwrap_or(decisions.to_vec()),
-        history_tail: obs.map(|o| history_tail(&o.history, 40)).unwrap_or_default(),
+        decisions: obs.decisions.clone(),
+        history_tail: history_tail(&obs.history, 40),
     }
 }
 
-fn run_one(c: &Case, exp: &Expect, cfg: &SimConfig, decider: Decider) -> (Option<Observed>, Option<(String, String, String)>) {
-    match run_script(&spec_of(c), cfg, decider) {
-        Err(p) => (
-            None,
-            Some(("panic".into(), format!("panic:{}", p.split('@').next_back().unwrap_or("").trim()), p)),
-        ),
-        Ok(obs) => {
-            let v = check_run(c, exp, &obs);
-            (Some(obs), v)
-        }
-    }
+fn run_one(c: &Case, exp: &Expect, cfg: &SimConfig, decider: Decider) -> (Observed, Option<(String, String, String)>) {
+    let obs = run_script(&spec_of(c), cfg, decider);
+    let v = check_run(c, exp, &obs);
+    (obs, v)
 }
 
 impl Prop for C13 {
@@ -1009,7 +981,8 @@ impl Prop for C13 {
             let cfg = draw_config(&mut rng, k);
             let decider = Decider::record(Rng::stream(seed, 1300 + k as u64, index));
             let (obs, v) = run_one(&case, &exp, &cfg, decider);
-            if let Some(o) = &obs {
+            {
+                let o = &obs;
                 stats.note_run(case_hash, &o.outcome, o.faults_fired);
                 stats.add_counters(&o.counters);
                 let d = crate::shellrun::obs_digest(o);
@@ -1024,13 +997,11 @@ impl Prop for C13 {
                         "history_head": o.history.iter().take(40).map(|e| format!("#{} pid{} {} {} {} {}", e.seq, e.pid, e.kind, e.a, e.b, e.text)).collect::<Vec<_>>(),
                     }));
                 }
-            } else {
-                stats.evaluations += 1;
             }
             if let Some(v) = v {
                 stats.count("violating_runs", 1);
                 if first_failure.is_none() {
-                    first_failure = Some(failure(&case, &cfg, obs.as_ref(), &[], v));
+                    first_failure = Some(failure(&case, &cfg, &obs, &[], v));
                 }
                 break;
             }
@@ -1042,7 +1013,7 @@ impl Prop for C13 {
         let c: Case = serde_json::from_value(case.clone()).ok()?;
         let exp = expect(&c);
         let (obs, v) = run_one(&c, &exp, cfg, Decider::replay(decisions));
-        v.map(|v| failure(&c, cfg, obs.as_ref(), decisions, v))
+        v.map(|v| failure(&c, cfg, &obs, decisions, v))
     }
 
     fn shrink(&self, case: &Value) -> Vec<Value> {
